@@ -13,7 +13,7 @@ from nix_manipulator.expressions.expression import (
     TypedExpression,
     coerce_expression,
 )
-from nix_manipulator.expressions.layout import linebreak
+from nix_manipulator.expressions.layout import linebreak, point_row
 from nix_manipulator.expressions.list import NixList
 from nix_manipulator.expressions.scope import ScopeState
 from nix_manipulator.expressions.trivia import (
@@ -177,7 +177,7 @@ class Binding(TypedExpression):
                 if (
                     value_node is not None
                     and prev_content == value_node
-                    and child.start_point.row == value_node.end_point.row
+                    and point_row(child.start_point) == point_row(value_node.end_point)
                     and isinstance(value, NixExpression)
                 ):
                     comment.inline = True
